@@ -229,6 +229,63 @@ class Interp:
         self.split_opaque = split_opaque
         self.vec_model = vec_model
         self.const_chars = const_chars
+        # generic parameter name -> concrete type (as printed by rustc) of the instantiation currently being interpreted; one frame
+        # per local callee entered with known generic arguments. Used to dispatch a trait method called on a type parameter.
+        self.tyenv = [{}]
+
+    # -- type-directed dispatch inside generic bodies
+    @staticmethod
+    def _norm_ty(s):
+        import re
+        return re.sub(r"\s+", ' ', re.sub(r"'\w+\s*", '', s)).strip()
+
+    def _subst_ty(self, s):
+        import re
+        env = self.tyenv[-1]
+        if not env or not s:
+            return s
+        return re.sub(r"(?<![\w:])(%s)(?![\w])" % '|'.join(re.escape(k) for k in sorted(env, key=len, reverse=True)), lambda m: env[m.group(1)], s)
+
+    def _unify_ty(self, pattern, concrete, params):
+        """bindings of the generic `params` that make the printed type `pattern` equal to `concrete` (lifetimes ignored), or None"""
+        import re
+        pat, con = self._norm_ty(pattern), self._norm_ty(concrete)
+        params = [p_ for p_ in params if not p_.startswith("'")]
+        if not params:
+            return {} if pat == con else None
+        rx, pos, seen = '', 0, []
+        for m in re.finditer(r"(?<![\w:])(%s)(?![\w])" % '|'.join(re.escape(k) for k in sorted(params, key=len, reverse=True)), pat):
+            rx += re.escape(pat[pos:m.start()])
+            nm = m.group(1)
+            if nm in seen:
+                rx += '(?P=g%d)' % seen.index(nm)
+            else:
+                rx += '(?P<g%d>.+)' % len(seen)
+                seen.append(nm)
+            pos = m.end()
+        rx += re.escape(pat[pos:])
+        m = re.fullmatch(rx, con)
+        if m is None:
+            return None
+        out = {nm: m.group('g%d' % i) for i, nm in enumerate(seen)}
+        # a binding must be a balanced type expression
+        for v_ in out.values():
+            if v_.count('<') != v_.count('>') or v_.count('(') != v_.count(')'):
+                return None
+        return out
+
+    def _callee_tyenv(self, c, target):
+        """the generic arguments `target` is entered with at this call, when they can be read off the call"""
+        ga = [self._subst_ty(a) for a in (c.get('args') or [])]
+        gens = [g_ for g_ in (target.j.get('generics') or [])]
+        if not gens:
+            return {}
+        if target.j.get('impl_trait') and c.get('trait') and ga and target.j.get('impl_self_ty'):
+            b = self._unify_ty(target.j['impl_self_ty'], ga[0], gens)
+            return b or {}
+        if len(ga) == len(gens):
+            return {g_: a for g_, a in zip(gens, ga) if not g_.startswith("'")}
+        return {}
 
     # -- values of places / operands
     def place_val(self, env, pl):
@@ -730,6 +787,15 @@ class Interp:
                 if cand.name == name and path_endswith(cand.j.get('impl_trait') or '', short(tr).split('<')[0]) and short(cand.j.get('impl_self_ty') or '').split('<')[0].lstrip('&') == short(args[0][1]).split('<')[0]:
                     target = cand
                     break
+        if target is None and c.get('local') and tr and c.get('self_ty') and self.prog.by_path.get(d) is None and len(self.tyenv) > 1:
+            # a method of a crate trait called on a type parameter inside a generic body entered with known generic arguments:
+            # the impl for the concrete type, as monomorphisation selects it
+            st = self._subst_ty(c['self_ty'])
+            if st != c['self_ty']:
+                cands = [cand for cand in self.prog.fns if cand.name == name and cand.j.get('impl_self_ty') and path_endswith(cand.j.get('impl_trait') or '', short(tr).split('<')[0])
+                         and self._unify_ty(cand.j['impl_self_ty'], st, cand.j.get('generics') or []) is not None]
+                if len(cands) == 1:
+                    target = cands[0]
         if target is None and path_endswith(tr, 'convert::Into') and name == 'into' and len(args) == 1 and len(c.get('args') or []) >= 2:
             # blanket `impl<T, U: From<T>> Into<U> for T`: into(x) is U::from(x); follow a local From impl
             src_ty, dst_ty = c['args'][0], c['args'][1]
@@ -743,7 +809,11 @@ class Interp:
             # derived Clone is a structural copy
             return args[0], args
         if target is not None and depth < self.max_depth and target.kind != 'Closure' and not (self.opaque and self.opaque(target)):
-            return ('paths', self.paths(target, args, depth + 1)), args
+            self.tyenv.append(self._callee_tyenv(c, target))
+            try:
+                return ('paths', self.paths(target, args, depth + 1)), args
+            finally:
+                self.tyenv.pop()
         nm = r or d
         if r and not self.prog.by_path.get(r) and (path_endswith(tr, 'cmp::PartialOrd') or path_endswith(tr, 'cmp::PartialEq')) and r.startswith(('std::', 'core::', 'alloc::')):
             # std's comparison impls (for references, for primitive types) are named by the trait method: `a > b` and `&a > &b` are one term
